@@ -169,6 +169,8 @@ func renderForm(b *strings.Builder, f *Node) {
 			b.WriteString(" ")
 			renderExpr(b, a)
 		}
+	case "bad":
+		b.WriteString(DefectText[f.Name])
 	default:
 		panic(fmt.Sprintf("render: unknown form %q", f.T))
 	}
